@@ -25,12 +25,12 @@ import (
 )
 
 func init() {
-	simrt.Register(&simrt.Check{Name: "C05a", Property: "C05", Body: c05aBody, Classify: classify,
-		Real: []string{"DataPublisher (SetLJH22/SetLJH3/SetOFF, PublishData, SetPause, Flush, Remove*)", "ljh.Writer, ljh.Writer3, off.Writer", "asyncbufio.Writer with its writer goroutine and 3 s flush ticker (fake clock)", "OS file system (sandbox directory)"},
-		Stub: []string{"records are harness-made (no trigger pipeline in this world)"}})
-	simrt.Register(&simrt.Check{Name: "C07c", Property: "C07", Body: c07cBody, Classify: classify,
-		Real: []string{"DataPublisher.Flush / SetPause over all three writers of a channel", "ljh.Writer, ljh.Writer3, off.Writer", "asyncbufio.Writer with its writer goroutine and flush ticker (fake clock)", "OS file system (sandbox directory)"},
-		Stub: []string{"records are harness-made (no trigger pipeline in this world)", "disk slowness = the scheduler starving the writer goroutine"}})
+	simrt.Register(&simrt.Check{Name: "C05a", Property: "C05", Body: c05aBody, Classify: classify, MaxSteps: 1500000,
+		Real: []string{"DataPublisher (SetLJH22/SetLJH3/SetOFF, PublishData, SetPause, Flush, Remove*)", "in a third of the runs: DataStreamProcessor.processSegment / processSecondaries (auto trigger, secondary records, AnalyzeData, TrimStream) as the caller of PublishData, with its fail-stop on a publish error", "ljh.Writer, ljh.Writer3, off.Writer", "asyncbufio.Writer with its writer goroutine and 3 s flush ticker (fake clock)", "OS file system (sandbox directory)"},
+		Stub: []string{"two thirds of the runs: records are harness-made (no trigger pipeline)", "one third: blocks of a harness-made sample stream, secondary trigger frames chosen by the harness (no broker); a process death is a recovered panic of the caller"}})
+	simrt.Register(&simrt.Check{Name: "C07c", Property: "C07", Body: c07cBody, Classify: classify, MaxSteps: 1500000,
+		Real: []string{"DataPublisher.Flush / SetPause over all three writers of a channel", "in a third of the runs: DataStreamProcessor.processSegment / processSecondaries as the caller of PublishData, with its fail-stop on a publish error", "ljh.Writer, ljh.Writer3, off.Writer", "asyncbufio.Writer with its writer goroutine and flush ticker (fake clock)", "OS file system (sandbox directory)"},
+		Stub: []string{"two thirds of the runs: records are harness-made (no trigger pipeline)", "one third: blocks of a harness-made sample stream, secondary trigger frames chosen by the harness; a process death is a recovered panic of the caller", "disk slowness = the scheduler starving the writer goroutine"}})
 	simrt.Register(&simrt.Check{Name: "C07b", Property: "C07", Body: c07bBody, Classify: classify, MaxSteps: 1500000,
 		Real: []string{"ljh.Writer, ljh.Writer3, off.Writer public API", "asyncbufio.Writer (queue capacity 1000, flush ticker)", "OS file system (sandbox directory)"},
 		Stub: []string{"disk slowness = the scheduler starving the writer goroutine"}})
@@ -131,6 +131,13 @@ func c05aBody(env *simrt.Env) { publisherBody(env, false) }
 func c07cBody(env *simrt.Env) { publisherBody(env, true) }
 
 func publisherBody(env *simrt.Env, flushOracle bool) {
+	// A third of the histories reach PublishData through its real callers, a DataStreamProcessor's
+	// processSegment / processSecondaries, with batches large enough to overflow a stalled writer's
+	// queue (zz_verif_writers_dsp.go); the others call PublishData directly, as before.
+	if simrt.Draw(3) == 0 {
+		dspPublisherBody(env, flushOracle)
+		return
+	}
 	p := genChanParams()
 	dp := &DataPublisher{}
 	// One DataPublisher serves every writing session of its channel: a history has one or more file
